@@ -177,6 +177,37 @@ func c12FieldsProgram(id string, pal []c12Field, parentPtr bool, parentSrc strin
 			b.Inj(fmt.Sprintf("Init%d", inj), u, false, false, params, build...)
 		}
 	}
+	// both the value and the pointer form of one field consumed in one injector, in both orders
+	if parentPtr {
+		for i := 0; i < n; i++ {
+			for _, valueFirst := range []bool{true, false} {
+				need := []*Ty{ftys[i], PtrTo(ftys[i])}
+				if !valueFirst {
+					need[0], need[1] = need[1], need[0]
+				}
+				inj++
+				u := b.Carrier(0, fmt.Sprintf("User%d", inj))
+				user := b.Func(0, fmt.Sprintf("NewUser%d", inj), u, false, false, need...)
+				fl := b.Fields(pt, fieldName(fs[i+1]))
+				build := []Ref{ItemRef(user.ID), ItemRef(fl.ID)}
+				if parentItem != nil {
+					build = append(build, ItemRef(parentItem.ID))
+				}
+				b.Inj(fmt.Sprintf("InitBoth%d", inj), u, false, false, params, build...)
+				// and through two separate consumers
+				inj++
+				u1, u2 := b.Carrier(0, fmt.Sprintf("UserA%d", inj)), b.Carrier(0, fmt.Sprintf("UserB%d", inj))
+				c1 := b.Func(0, fmt.Sprintf("NewUserA%d", inj), u1, false, false, need[0])
+				c2 := b.Func(0, fmt.Sprintf("NewUserB%d", inj), u2, false, false, need[1], u1)
+				fl2 := b.Fields(pt, fieldName(fs[i+1]))
+				build2 := []Ref{ItemRef(c1.ID), ItemRef(c2.ID), ItemRef(fl2.ID)}
+				if parentItem != nil {
+					build2 = append(build2, ItemRef(parentItem.ID))
+				}
+				b.Inj(fmt.Sprintf("InitSplit%d", inj), u2, false, false, params, build2...)
+			}
+		}
+	}
 	b.P.Note = "fields-subsets"
 	b.P.Feat = map[string]string{"shape": "fields-subsets", "fields": fmt.Sprint(pal), "parentPtr": fmt.Sprint(parentPtr), "parentSrc": parentSrc, "pkg": fmt.Sprint(pkg)}
 	return b.P
